@@ -8,6 +8,11 @@ from vlib import gen
 from vlib.ref import dft as rdft
 from vlib.runner import Violation, hyp, lentil_call
 
+# the check's own calls are issued with keywords or positionally in the documented order (vlib/callforms.py)
+from vlib import callforms as _cf
+lentil = _cf.proxy(lentil)
+fourier = _cf.proxy(fourier, "fourier.")
+
 RULE = ("cases drawn by Hypothesis: input shape, output shape, per-axis alpha, real shift, integer "
         "offset, unitary flag, out= buffer; non-trivial = at least 2 non-zero input samples and at "
         "least 2 output samples; distinct = distinct canonical case descriptors")
